@@ -12,6 +12,9 @@ CHECKS = {
  "C03": ("fault_enumeration", "PBT workloads + exhaustive crash-point enumeration over the recorded syscall log",
          "For each generated workload every prefix of its recorded mutating file-system calls is materialised and recovered; acknowledged ops must be present, the in-flight op all-or-nothing. Complete per workload for the property's kill model; workloads are sampled.",
          "kill model = prefix of system calls (as the property states); LD_PRELOAD recorder sees libc-level calls; all-eligible merges", "6/C03"),
+ "C04": ("exploration", "concurrent PBT with syscall-level schedule perturbation + Wing-Gong linearizability checker",
+         "Generated multi-threaded programs with a merging thread under generated pause/split-write plans at file-system calls; no panic, no error, byte-exact values, per-key linearizability, reader pool intact, no hang. Schedules are sampled, not enumerated.",
+         "preemption controlled only at tracked syscalls; everything else is the OS scheduler", "6/C04"),
  "C05": ("exploration", "model-based stateful PBT over arbitrary merge thresholds",
          "Histories with merges selecting arbitrary file subsets, reads compared with the model right after each merge and after each later reopen; one known finding (D2) is tolerated by an exact structural signature.",
          "merges through verif_merge; D2 tolerated only under signature tombstone-dropped", "6/C05"),
